@@ -844,7 +844,11 @@ class S(metaclass=SMeta):
         return mk((self.cs[i],))
 
     def __reduce__(self):
-        return (S, (conc(self),))
+        if self.v is None:
+            # symbolic leaves pickle through a same-process token table
+            _PICKLE_TAB.append(self)
+            return (_from_pickle_tab, (_len(_PICKLE_TAB) - 1, type(self)))
+        return (type(self), (self.v,))
 
     def __format__(self, spec):
         return format(conc(self), unwrap(spec))
@@ -1368,6 +1372,13 @@ class S(metaclass=SMeta):
 
     def format(self, *a, **k):
         return fmt_format(self, a, k)
+
+
+_PICKLE_TAB = []
+
+
+def _from_pickle_tab(i, cls):
+    return cls(_PICKLE_TAB[i])
 
 
 SWAP_T = _intern(tuple(ord(chr(i).swapcase()) for i in range(128)))
